@@ -92,8 +92,21 @@ func H_C10_packet() {
 	nameLen, rdLen := vParam("name"), vParam("rd")
 	p := &NBTNSPacket{}
 	p.Header = NBTNSHeader{TransactionID: vU16("id"), Flags: vU16("flags"), Questions: uint16(nq), Answers: uint16(na), Authority: uint16(ns), Additional: uint16(nr)}
+	// optional scope identifier on the question name: one label of `scope` octets (1..63 are legal, RFC 1002 4.1)
+	qscope := ""
+	if l := vParam("scope"); l > 0 {
+		if l <= 4 {
+			qscope = symLabel("qs", l)
+		} else {
+			// long labels: two symbolic characters, the rest fixed (the per-character checks fork once per symbolic character)
+			qscope = symLabel("qs", 2)
+			for len(qscope) < l {
+				qscope += "x"
+			}
+		}
+	}
 	for i := 0; i < nq; i++ {
-		p.Questions = append(p.Questions, NBTNSQuestion{Name: &NetBIOSName{Name: symName("qn", nameLen)}, Type: vU16("qt"), Class: vU16("qc")})
+		p.Questions = append(p.Questions, NBTNSQuestion{Name: &NetBIOSName{Name: symName("qn", nameLen), ScopeID: qscope}, Type: vU16("qt"), Class: vU16("qc")})
 	}
 	for i := 0; i < na; i++ {
 		p.Answers = append(p.Answers, symRR("an", nameLen, rdLen))
@@ -124,6 +137,7 @@ func H_C10_packet() {
 	vCheck(len(d.Questions) == nq && len(d.Answers) == na && len(d.Authority) == ns && len(d.Additional) == nr, "packet/section-sizes")
 	for i := 0; i < nq && i < len(d.Questions); i++ {
 		vCheck(vStrEq(d.Questions[i].Name.Name, rtrim(p.Questions[i].Name.Name)), "packet/question/name")
+		vCheck(vStrEq(d.Questions[i].Name.ScopeID, qscope), "packet/question/scope")
 		vCheck(d.Questions[i].Type == p.Questions[i].Type && d.Questions[i].Class == p.Questions[i].Class, "packet/question/type-class")
 	}
 	for i := 0; i < na && i < len(d.Answers); i++ {
